@@ -22,6 +22,7 @@ import json as _json
 import os
 import re
 import shutil
+import signal
 import tempfile
 import warnings
 
@@ -38,6 +39,8 @@ from rdflib.paths import AlternativePath, InvPath, MulPath, NegatedPath, Sequenc
 from rdflib.plugins.sparql import prepareQuery
 
 warnings.filterwarnings("ignore")
+import logging  # noqa: E402
+logging.getLogger("rdflib").setLevel(logging.CRITICAL)
 
 ID = "C13"
 LEAN_TARGETS = ["RV.C13.Props", "RV.C13.Audit"]
@@ -48,7 +51,8 @@ RULE = ("random datasets (0-3 named graphs incl. blank-node-named, empty and reg
         "blank nodes, RDF lists, falsy literals) as Dataset (default_union on/off), ConjunctiveGraph, plain Graph or a "
         "Graph view; 18-30 read-only calls per case drawn from all serializer formats x option sets, ~50 SPARQL "
         "templates, property paths, compare functions, membership/iteration/slicing/graph-listing calls; snapshot of "
-        "quads + graph names after every call.  non-trivial = the dataset has >= 1 quad and >= 10 reads completed "
+        "quads + graph names after every call; 30 % of the cases are R, R', R schedules of RELATED reads, and these plus "
+        "a sample of the others are also compared read by read with a pristine forked process.  non-trivial = the dataset has >= 1 quad and >= 10 reads completed "
         "without raising; distinct = distinct (cfg, quads, empty, reads)")
 ASSUMPTIONS = ["Memory store only (the property's quantifier does not name other stores)",
                "contexts passed to read calls are identifiers or views on the dataset's own store; handing a FOREIGN "
@@ -57,7 +61,7 @@ ASSUMPTIONS = ["Memory store only (the property's quantifier does not name other
                "namespace bindings and the always-existing default graph's registration are outside the statement",
                "reads involving RAND/NOW/UUID/BNODE()/template blank nodes are exempt from the twice-in-a-row clause "
                "(compared up to blank-node renaming where applicable)"]
-TRUSTED = ["harness/c13.py generators, read drivers and canonicalisation; harness/isoutil.py",
+TRUSTED = ["harness/c13.py generators, read drivers, canonicalisation and the forked pristine-process reference; harness/isoutil.py",
            "lean/RV/C13/Drive.lean line protocol"]
 
 # ------------------------------------------------------------------ vocabulary
@@ -69,6 +73,8 @@ TERM = {
     10: URIRef(EX + "p"), 11: URIRef(EX + "q"), 12: RDF.type, 13: RDF.first, 14: RDF.rest,
     15: URIRef("http://o/ns#r"),                           # a predicate whose namespace has no prefix: serializers bind one
     29: URIRef("http://t/ns#T"),                           # a class in another unbound namespace
+    30: URIRef("http://one/s"), 31: URIRef("http://one/p"),     # namespaces for `_x` / `p_x` prefix pairs
+    32: URIRef("http://two/s"), 33: URIRef("http://three/p"),
     20: Literal(""), 21: Literal(0), 22: Literal(False), 23: Literal("x", lang="en"), 24: Literal("1"),
     25: Literal("2024-02-03", datatype=XSD.date), 26: RDF.nil, 27: Literal("a\"b\nc"), 28: URIRef(EX + "C"),
 }
@@ -358,6 +364,80 @@ def gen_read(rng, cfg, quads, kind=None):
     return ["ctx", f] + pat + [g, how]
 
 
+BASE_Q = ['SELECT ?x WHERE { BIND(IRI("rel") AS ?x) }',
+          'SELECT ?s ?x WHERE { ?s {P} ?o BIND(IRI("rel#f") AS ?x) }',
+          'SELECT ?s ?l WHERE { ?s ?p ?o FILTER(isLiteral(?o)) BIND(URI(STR(?o)) AS ?l) }',
+          'SELECT ?x WHERE { BIND(IRI("../up") AS ?x) }',
+          'CONSTRUCT { ?s {P} ?x } WHERE { ?s ?p ?o BIND(IRI("d/e") AS ?x) }']
+BASES = [{}, {"base": "http://base.example/dir/"}, {"base": "http://b2.example/x/y"}]
+REGEX_PATTERNS = ["e/c$", "^HTTP", "X", "^x$", "B.C", "ns#t"]
+MIX_QUADS = [[1, 10, 3, 0], [1, 10, 28, 0], [2, 11, 23, 0], [2, 15, 27, 0], [3, 12, 29, 0]]
+
+
+def gen_aba(rng, cfg, case):
+    """two RELATED reads R, R' (same query text / pattern / format with other arguments, or another graph):
+    the schedule R, R', R must give the first answer again.  May extend the case (quads, binds, other graph)."""
+    quads = case["quads"]
+    fam = rng.choice(["base", "base", "initb", "initns", "regex", "regex", "lang", "prefix", "prefix", "seropt",
+                      "generic", "order"])
+    prep = rng.choice([4, 4, 0])
+    if fam in ("regex", "lang", "base", "initb", "order"):
+        for q in MIX_QUADS:
+            if q not in quads and cfg != "view":
+                quads.append(list(q))
+    if fam == "base":
+        t = rng.choice(BASE_Q).replace("{P}", _n3(TERM[rng.choice([10, 11])]))
+        a, b = rng.sample(BASES, 2)
+        return fam, ["q", t, prep, a], ["q", t, prep, b]
+    if fam == "order":
+        t = rng.choice(["SELECT ?s ?p ?o WHERE { ?s ?p ?o } ORDER BY ?s DESC(?o) ?p",
+                        "SELECT ?s ?o WHERE { ?s ?p ?o } ORDER BY DESC(?p) ?o LIMIT 3 OFFSET 1",
+                        "SELECT ?p ?o WHERE { ?s ?p ?o } ORDER BY ?p DESC(STR(?o)) LIMIT 2",
+                        "SELECT ?s (COUNT(?o) AS ?n) WHERE { ?s ?p ?o } GROUP BY ?s ORDER BY DESC(?n) ?s"])
+        a, b = rng.sample([{}, {"ib": 1}, {"ib": 2}, {"base": "http://base.example/dir/"}], 2)
+        return fam, ["q", t, 4, a], ["q", t, 4, b if rng.random() < 0.6 else a]
+    if fam == "initb":
+        t = rng.choice(["SELECT ?s ?p ?o WHERE { ?s ?p ?o }", "SELECT ?s ?x WHERE { ?s ?p ?o OPTIONAL { ?o ?q ?x } }",
+                        "ASK { ?s ?p ?o }"])
+        a, b = rng.sample([{}, {"ib": 1}, {"ib": 2}, {"ib": 4}], 2)
+        return fam, ["q", t, prep, a], ["q", t, prep, b]
+    if fam == "initns":
+        t = rng.choice(["SELECT ?s ?o WHERE { ?s x:p ?o }", "ASK { ?s x:q ?o }", "SELECT ?s WHERE { ?s x:r ?o }"])
+        a, b = rng.sample([{"ns": {"x": EX}}, {"ns": {"x": "http://o/ns#"}}, {"ns": {"x": "http://e/", "y": "urn:y:"}}], 2)
+        return fam, ["q", t, prep, a], ["q", t, prep, b]
+    if fam == "regex":
+        pat = rng.choice(REGEX_PATTERNS)
+        fa, fb = rng.sample(["", ', "i"', ', "s"', ', "im"'], 2)
+        t = 'SELECT ?s ?o WHERE { ?s ?p ?o FILTER regex(STR(?o), "%s"%s) }'
+        if rng.random() < 0.3:
+            t = 'ASK { ?s ?p ?o FILTER regex(STR(?o), "%s"%s) }'
+        return fam, ["q", t % (pat, fa), rng.choice([0, 4])], ["q", t % (pat, fb), rng.choice([0, 4])]
+    if fam == "lang":
+        conds = ['LANG(?o) = "en"', 'LANG(?o) = "EN"', 'LANGMATCHES(LANG(?o), "EN")', 'STR(?o) = "x"', 'STR(?o) = "X"',
+                 'CONTAINS(STR(?o), "C")', 'CONTAINS(LCASE(STR(?o)), "c")', 'STRSTARTS(STR(?o), "http://e/c")']
+        a, b = rng.sample(conds, 2)
+        t = "SELECT ?s ?o WHERE { ?s ?p ?o FILTER(%s) }"
+        return fam, ["q", t % a, prep], ["q", t % b, prep]
+    if fam == "prefix":
+        # graph 1 binds `_t`; graph 2 binds a real `p_t` (met first) and `_t`: the Turtle family rewrites `_t`
+        tag = rng.choice(["a", "b", "9", "x1"])
+        g1 = {"binds": [["_" + tag, "http://one/"]], "quads": [[30, 31, 24]]}
+        g2 = {"binds": [["p_" + tag, "http://two/"], ["_" + tag, "http://three/"]], "quads": [[32, 33, 24]]}
+        mine, other = (g1, g2) if rng.random() < 0.5 else (g2, g1)
+        if cfg != "view":
+            case["binds"] = mine["binds"]
+            quads += [q + [0] for q in mine["quads"]]
+        case["other"] = other
+        fmts = ["turtle", "turtle", "n3", "trig", "longturtle"]
+        return fam, ["ser", rng.choice(fmts), "plain"], ["oser", rng.choice(fmts), "plain"]
+    if fam == "seropt":
+        fmt = rng.choice([f for f in SER_FORMATS if len(OPTS_FOR.get(f, ["plain", "base", "bytes", "stream"])) > 1])
+        a, b = rng.sample(sorted(set(OPTS_FOR.get(fmt, ["plain", "base", "bytes", "stream"]))), 2)
+        return fam, ["ser", fmt, a], ["ser", fmt, b]
+    kind = rng.choice(["q", "path", "basic", "nav", "cmp", "ser"])
+    return fam, gen_read(rng, cfg, quads, kind), gen_read(rng, cfg, quads, kind)
+
+
 def gen_case(rng, tier, i):
     cfg = rng.choice(["ds", "ds", "ds", "dsu", "dsu", "cg", "cgd", "g", "view"])
     quads, empty = gen_dataset(rng, cfg)
@@ -365,6 +445,16 @@ def gen_case(rng, tier, i):
     if cfg == "view":
         gs = sorted({q[3] for q in quads} | set(empty)) or [0]
         case["view"] = rng.choice(gs + [9])
+    if rng.random() < 0.3:
+        # A, B, A: a read, a RELATED different read, the first read again (run_impl repeats reads[0] at the end);
+        # every read is also compared with its answer in a pristine process (`ref`)
+        fam, r1, r2 = gen_aba(rng, cfg, case)
+        reads = [r1, r2] if rng.random() < 0.5 else [r2, r1]
+        if rng.random() < 0.3:
+            reads.insert(rng.randint(1, 2), gen_aba(rng, cfg, case)[rng.randint(1, 2)])
+        case.update({"twice": rng.random() < 0.25, "reads": reads, "ref": True, "aba": fam})
+        return case
+    case["ref"] = rng.random() < 0.12
     n = rng.randint(18, 30) if case["twice"] else rng.randint(2, 5)
     reads = []
     if case["twice"]:
@@ -404,6 +494,8 @@ def build(case):
         top = Graph(identifier=PLAIN_ID)
     if not case.get("nobind"):
         top.bind("e", EX)
+    for pfx, ns in case.get("binds", []):
+        top.bind(pfx, ns)
     store = top.store
     for s, p, o, g in case["quads"]:
         if cfg == "g":
@@ -417,6 +509,19 @@ def build(case):
     if cfg == "view":
         target = top.get_context(_gid(cfg, case.get("view", 0)))
     return top, target
+
+
+def build_other(case):
+    """a second, unrelated plain graph (own store) that `oser` reads serialise between reads of the main one"""
+    spec = case.get("other")
+    if not spec:
+        return None
+    g = Graph(identifier=URIRef("urn:g:other"))
+    for pfx, ns in spec.get("binds", []):
+        g.bind(pfx, ns)
+    for s_, p_, o_ in spec["quads"]:
+        g.add((TERM[s_], TERM[p_], TERM[o_]))
+    return g
 
 
 def snapshot(case, top):
@@ -537,6 +642,14 @@ def do_read(case, top, target, rd):
     """execute one read-only call; returns a canonical, comparable answer"""
     api = rd[0]
     cfg = case["cfg"]
+    if api == "oser":                     # serialise the OTHER graph of the case (an intervening, unrelated read)
+        other = _OTHER.get("g")
+        before_o = set(other)
+        try:
+            return do_read({**case, "cfg": "g"}, other, other, ["ser"] + rd[1:])
+        finally:
+            if set(other) != before_o:
+                _SIDE_VIOL.append("mutated:oser: serialising the other graph changed it")
     if api == "ser":
         _, fmt, optname = rd
         kw = dict(SER_OPTS[optname])
@@ -560,7 +673,8 @@ def do_read(case, top, target, rd):
             return sorted(l for l in out.splitlines() if l.strip())
         return Text(fmt, out, fmt in QUAD_FORMATS and isinstance(target, ConjunctiveGraph))
     if api == "q":
-        _, text, flags = rd
+        text, flags = rd[1], rd[2]
+        kw4 = rd[3] if len(rd) > 3 else {}
         for ph, url in _DOC_URLS.items():
             text = text.replace(ph, url)
         old = (rsparql.SPARQL_LOAD_GRAPHS, rsparql.SPARQL_DEFAULT_GRAPH_UNION)
@@ -572,8 +686,17 @@ def do_read(case, top, target, rd):
             kw = {}
             if flags & 8:
                 kw["initBindings"] = {"s": TERM[1]}
-            if flags & 4:        # one prepared object per query text and case: re-used by the second call
-                qobj = _PREPARED.get(text) or _PREPARED.setdefault(text, prepareQuery(text))
+            if "base" in kw4:
+                kw["base"] = kw4["base"]
+            if "ib" in kw4:
+                kw["initBindings"] = {"s": TERM[kw4["ib"]]}
+            if "ns" in kw4:
+                kw["initNs"] = dict(kw4["ns"])
+            if flags & 4:        # one prepared object per query text and case: re-used by later calls with other arguments
+                pkey = (text, _json.dumps(kw4.get("ns"), sort_keys=True))
+                if pkey not in _PREPARED:
+                    _PREPARED[pkey] = prepareQuery(text, initNs=kw4.get("ns") or {})
+                qobj = _PREPARED[pkey]
             else:
                 qobj = text
             res = target.query(qobj, **kw)
@@ -589,6 +712,8 @@ def do_read(case, top, target, rd):
                 if "RAND()" in text:
                     return ["rows", len(rows)]
                 return Fresh(rows)
+            if "ORDER BY" in text:       # the order is part of the answer
+                return ["SELECT", _k([str(v) for v in res.vars])] + [_k(r) for r in rows]
             return ["SELECT", _k([str(v) for v in res.vars])] + _bag(rows)
         finally:
             rsparql.SPARQL_LOAD_GRAPHS, rsparql.SPARQL_DEFAULT_GRAPH_UNION = old
@@ -810,6 +935,8 @@ def same_answer(a, b):
 
 
 def api_name(rd):
+    if rd[0] == "oser":
+        return "oser/" + rd[1]
     if rd[0] == "ser":
         return "ser/" + rd[1]
     if rd[0] == "q":
@@ -823,10 +950,167 @@ MODEL_MAY_BIND = {"ser/turtle", "ser/longturtle", "ser/n3", "ser/trig", "ser/xml
 
 
 _DOC_URLS = {}
+_OTHER = {}
+
+# ---- reference answers from a PRISTINE process -----------------------------------------------------------------
+# "the same read on an unchanged graph gives the same answer … in any order and repetition": the answer of a read
+# must not depend on which reads (of this or of any other graph) the process has executed before.  State kept
+# outside the graph (module-level caches, class attributes, prepared-query objects) stays consistent once it is
+# tainted, so repeating a read does not expose it; comparing with the answer of the read evaluated ALONE in a
+# process that has executed no read at all does.  Each worker forks a zygote before its first case; per request
+# the zygote forks one child per read, which builds the case's graph, runs that one read and returns the answer.
+_ZYG = None          # None = not started, False = unavailable, else (pid, wfile, rfile)
+REF_TIMEOUT_S = 15
+# answers that legitimately depend on prefix bindings made by earlier reads, or that show the freshly minted
+# identifier of the Dataset object the harness builds
+REF_SKIP = {"basic/qname", "basic/namespaces", "basic/str", "basic/n3"}
+
+
+def _enc(a):
+    if isinstance(a, Text):
+        return ["T", a.fmt, a.text, a.quadfmt]
+    if isinstance(a, Fresh):
+        return ["F"]
+    return ["L", a]
+
+
+def _dec(e):
+    if e[0] == "T":
+        return Text(e[1], e[2], e[3])
+    if e[0] == "L":
+        return e[1]
+    return None
+
+
+def _reference_one(case, k, doc_urls):
+    _DOC_URLS.clear()
+    _DOC_URLS.update(doc_urls)
+    _PREPARED.clear()
+    top, target = build(case)
+    _OTHER["g"] = build_other(case)
+    return _enc(_call(case, top, target, case["reads"][k]))
+
+
+def _fork_collect(fn):
+    """run fn() in a forked child (alarm-guarded) and return its JSON result, or None"""
+    r, w = os.pipe()
+    pid = os.fork()
+    if pid == 0:
+        try:
+            os.close(r)
+            signal.alarm(REF_TIMEOUT_S)
+            os.write(w, _json.dumps(fn()).encode())
+        except BaseException:  # noqa: BLE001
+            pass
+        finally:
+            os._exit(0)
+    os.close(w)
+    chunks = []
+    while True:
+        c = os.read(r, 1 << 16)
+        if not c:
+            break
+        chunks.append(c)
+    os.close(r)
+    os.waitpid(pid, 0)
+    try:
+        return _json.loads(b"".join(chunks)) if chunks else None
+    except ValueError:
+        return None
+
+
+def _ref_case(case, doc_urls):
+    """(in a pristine process) the alone-answer of every selected read, each from its own forked child — taken
+    BEFORE this process executes any read itself — then the whole case in sequence, compared with them"""
+    _DOC_URLS.clear()
+    _DOC_URLS.update(doc_urls)
+    seen, ks = set(), []
+    for k, rd in enumerate(case["reads"]):
+        key = _json.dumps(rd)
+        if key not in seen and api_name(rd) not in REF_SKIP:
+            seen.add(key)
+            ks.append(k)
+    if not case.get("aba"):
+        ks = ks[:8]              # long cases: a sample keeps the quick tier quick
+    refs = {}
+    for k in ks:
+        e = _fork_collect(lambda k=k: _reference_one(case, k, doc_urls))
+        if e is not None:
+            refs[k] = e
+    return _run_impl(case, refs)
+
+
+def _zygote_loop(rf, wfd):
+    for line in rf:
+        req = _json.loads(line)
+        out = _fork_collect(lambda: _ref_case(req["case"], req["doc_urls"]))
+        os.write(wfd, (_json.dumps(out) + "\n").encode())
+
+
+def _zygote_start():
+    """fork a copy of this process while it has not executed any read yet"""
+    global _ZYG
+    if _ZYG is not None or os.environ.get("C13_NO_REFERENCE"):
+        _ZYG = _ZYG or False
+        return
+    try:
+        c2z_r, c2z_w = os.pipe()
+        z2c_r, z2c_w = os.pipe()
+        pid = os.fork()
+    except OSError:
+        _ZYG = False
+        return
+    if pid == 0:
+        try:
+            os.close(c2z_w)
+            os.close(z2c_r)
+            signal.setitimer(signal.ITIMER_REAL, 0)
+            for sig in (signal.SIGALRM, signal.SIGTERM, signal.SIGINT):
+                signal.signal(sig, signal.SIG_DFL)
+            _zygote_loop(os.fdopen(c2z_r, "r"), z2c_w)
+        except BaseException:  # noqa: BLE001
+            pass
+        finally:
+            os._exit(0)
+    os.close(c2z_r)
+    os.close(z2c_w)
+    _ZYG = (pid, os.fdopen(c2z_w, "w"), os.fdopen(z2c_r, "r"))
+
+
+def _zygote_drop():
+    global _ZYG
+    if _ZYG:
+        try:
+            os.kill(_ZYG[0], signal.SIGKILL)
+            os.waitpid(_ZYG[0], 0)
+        except OSError:
+            pass
+    _ZYG = False
+
+
+def run_in_pristine(case):
+    """the whole case (alone-references + sequence) in a pristine process; None if unavailable"""
+    if not _ZYG:
+        return None
+    try:
+        _ZYG[1].write(_json.dumps({"case": case, "doc_urls": dict(_DOC_URLS)}) + "\n")
+        _ZYG[1].flush()
+        line = _ZYG[2].readline()
+        if not line:
+            raise OSError("zygote gone")
+        return _json.loads(line)
+    except core.CaseTimeout:
+        _zygote_drop()
+        raise
+    except Exception:
+        _zygote_drop()
+        return None
 
 
 def run_impl(case):
     """writes the loadable documents into a temp dir (removed afterwards) when a read names one"""
+    if _ZYG is None:
+        _zygote_start()          # before this process runs its first read
     tmp = None
     _DOC_URLS.clear()
     if any(r[0] == "q" and "<doc:" in r[1] for r in case["reads"]):
@@ -838,6 +1122,13 @@ def run_impl(case):
                     f.write(body)
             _DOC_URLS[ph] = "<file://" + path + ">"
     try:
+        if case.get("ref"):
+            res = run_in_pristine(case)
+            if res is not None:
+                return res
+            res = _run_impl(case)
+            res["stats"]["reference_unavailable"] = 1
+            return res
         return _run_impl(case)
     finally:
         _DOC_URLS.clear()
@@ -845,10 +1136,12 @@ def run_impl(case):
             shutil.rmtree(tmp, ignore_errors=True)
 
 
-def _run_impl(case):
+def _run_impl(case, refs=None):
     _PREPARED.clear()
     top, target = build(case)
+    _OTHER["g"] = build_other(case)
     obs, viol, stats = [], [], {}
+    first_answers = {}
     before = snapshot(case, top)
     completed = 0
     first_ans = None
@@ -889,6 +1182,7 @@ def _run_impl(case):
             completed += 1
         if k == 0:
             first_ans = a1
+        first_answers.setdefault(_json.dumps(rd), (k, a1))
         if case["twice"]:
             a2 = _call(case, top, target, rd)
             now = check_state(k, rd, "second call")
@@ -916,6 +1210,28 @@ def _run_impl(case):
             viol.append(f"nondeterministic:{api_name(reads[0])}: read {reads[0]!r} answered differently after the "
                         f"read-only sequence {reads[1:]!r}: {_short(first_ans)} vs {_short(again)}")
         obs.append(_obs_line(now))
+    for k_s, enc in sorted((refs or {}).items(), key=lambda kv: int(kv[0])):
+        k = int(k_s)
+        a = first_answers[_json.dumps(reads[k])][1]
+        ref = _dec(enc)
+        if ref is None or isinstance(a, Fresh):
+            bump("reference_skipped")
+            continue
+        try:
+            mine = _dec(_json.loads(_json.dumps(_enc(a))))
+        except (TypeError, ValueError):
+            bump("reference_skipped")
+            continue
+        same = same_answer(mine, ref)
+        bump("reference_compared")
+        if same is None:
+            bump("determinism_undecided")
+        elif not same:
+            viol.append(f"history-dependent:{api_name(reads[k])}: read #{k} {reads[k]!r} answered {_short(mine)} "
+                        f"after the reads {reads[:k]!r} of this case, but {_short(ref)} when it is the first read a "
+                        f"process executes on the same unchanged graph")
+    if case.get("aba"):
+        bump("aba_" + case["aba"])
     bump("cfg_" + case["cfg"])
     bump("reads", len(reads))
     bump("quads", len(case["quads"]))
@@ -985,6 +1301,8 @@ def model_read(case, rd):
     api = rd[0]
     if api == "ser":
         return _model_ser(rd, multi)
+    if api == "oser":
+        return "read pure"            # another graph (own store) is serialised: this dataset is not involved
     if api == "cmp" and rd[1] == "skolemize":
         return "read skolemize"
     if api == "basic" and rd[1] == "qname":
